@@ -128,6 +128,13 @@ def worker_main(argv):
     plan = mod.plan(tier)
     ctx = Ctx()
     ctx.shard, ctx.nshards = shard, nshards
+    cov = None
+    if os.environ.get("VERIF_COVERAGE"):
+        # diagnostic only (tools/reach.sh): which library lines do the workloads of this check drive at all?
+        import coverage
+        cov = coverage.Coverage(data_file=os.path.join(os.environ["VERIF_COVERAGE"], f"cov.{pid}"), data_suffix=True,
+                                include=[os.path.join(base.REPO, "src", "pydsol", "core", "*")])
+        cov.start()
     curfd = os.open(out + ".cur", os.O_WRONLY | os.O_CREAT | os.O_TRUNC, 0o644)
     code = 0
     try:
@@ -144,6 +151,9 @@ def worker_main(argv):
     except BaseException:
         ctx.viol("harness-exception:shard", traceback.format_exc()[-3000:])
         code = 3
+    if cov is not None:
+        cov.stop()
+        cov.save()
     with open(out, "w") as fh:
         json.dump(ctx.dump(), fh, default=base._default)
     sys.stdout.flush()
@@ -324,7 +334,7 @@ def write_evidence(mod, pid, tier, seed, ctx, wall, unlisted, known_hit, inconcl
           "assumptions": list(mod.ASSUMPTIONS), "wall_s": round(wall, 2), "violations": unlisted}
     # evidence describes runs against /repo itself; runs against a scratch copy (VERIF_REPO=..., self-validation on
     # deliberately broken trees) must not overwrite it
-    d = os.path.join(base.ROOT, "evidence") if os.path.realpath(base.REPO) == "/repo" else os.path.join(base.ROOT, ".tmp", "evidence-scratch")
+    d = os.path.join(base.ROOT, "evidence") if (os.path.realpath(base.REPO) == "/repo" and not os.environ.get("VERIF_COVERAGE")) else os.path.join(base.ROOT, ".tmp", "evidence-scratch")
     os.makedirs(d, exist_ok=True)
     with open(os.path.join(d, pid + ".json"), "w") as fh:
         json.dump(ev, fh, indent=1, default=base._default)
